@@ -191,6 +191,7 @@ class World:
         self.used_types = set()
         self.dropped_unresolved = []
         self.stubs = []
+        self.dropped_hints = {}
 
     # ------------------------------------------------------------------ modules
     def modules(self):
@@ -828,6 +829,7 @@ class World:
             'labels': [{'label': l, 'span': [s, e]} for l, s, e in label_spans],
             'inner_labels': [{'label': l, 'span': [s, e]} for l, s, e in inner_labels],
             'contract': os.path.relpath(c.origin, VERIF),
+            'dropped_hints': self.dropped_hints.get(cname, []),
         })
 
     def _body(self, src, it, c, cname):
@@ -890,7 +892,10 @@ class World:
                     hits = [x for x in pool
                             if re.sub(r'\s+', ' ', src[x['span'][0]:x['span'][1]].decode()).startswith(want)]
                     if len(hits) != 1:
-                        raise Inconclusive(f'lost anchor: {len(hits)} top-level statements of {cname} start with {want!r}')
+                        # a proof hint lost its anchor: drop it.  If the function then still verifies nothing is lost;
+                        # if it does not, the run is inconclusive for this function (never a verdict).
+                        self.dropped_hints.setdefault(cname, []).append(want)
+                        continue
                     st = hits[0]
                 elif n >= len(it['stmts']):
                     raise Inconclusive(f'lost anchor: {cname} has {len(it["stmts"])} statements, hint names {n}')
